@@ -206,6 +206,58 @@ def run(p, led, tier):
             else:
                 led.fail("C12-R1", key, where(tr, un[0]), "the escape is reverted before a later pass scans the text")
 
+    # ---------------- R4 the escape is complete and invertible (decided on the literals of the replace rule)
+    led.rule("C12-R4", "the escaping rewrite leaves no template delimiter in any text (overlapping occurrences included) and the driver's rewrite inverts it", 1)
+    esc_rules = _escape_rules(rib, p, escapers)
+    un_rules = _unescape_rules(tr)
+    import itertools as _it
+    words = ["".join(w) for k in range(0, 7) for w in _it.product("{}x", repeat=k)]
+    for name, (fi_e, node_e, A, B) in sorted(esc_rules.items()):
+        key = f"{fi_e.qual} ▸ escape `{A!r} → {B!r}`"
+        leak = next((w for w in words if "{{" in w.replace(A, B)), None)
+        if leak is not None:
+            led.fail("C12-R4", key, where(fi_e, node_e),
+                     f"the text {leak!r} is rewritten to {leak.replace(A, B)!r}, which still contains a live delimiter: a bound value can smuggle template syntax past the escape",
+                     witness=f"bind a value containing {leak + 'name}}'!r}: the later passes expand {{{{name}}}} inside it")
+            continue
+        inv = [(a2, b2) for (n2, a2, b2) in un_rules]
+        bad_rt = None
+        for (a2, b2) in inv or [(None, None)]:
+            if a2 is None:
+                bad_rt = "the driver never undoes the escape"
+                break
+            w_bad = next((w for w in words if "\x00" not in w and w.replace(A, B).replace(a2, b2) != w), None)
+            if w_bad is not None:
+                bad_rt = f"{w_bad!r} comes back as {w_bad.replace(A, B).replace(a2, b2)!r}"
+        if bad_rt:
+            led.fail("C12-R4", key, where(fi_e, node_e), f"escape and unescape are not inverse: {bad_rt}")
+        else:
+            led.ok("C12-R4", key, where(fi_e, node_e), f"{len(words)} texts over {{ }} x up to length 6: no delimiter survives the rewrite and the driver's rewrite restores the text")
+    if not esc_rules and escapers:
+        led.undecided("C12-R4", "Ribosome ▸ escape rule", where(tr, tr.node), "the escaping function is not a single literal replace; completeness not decided")
+
+    # ---------------- R5 render state is balanced: a counter raised on entry is lowered on every exit, exceptional ones included
+    led.rule("C12-R5", "instance state incremented by the renderer is decremented on every path to every exit (return or raise)", 0)
+    from ..cfg import CFG
+    for g in [tr] + pass_fns:
+        ups, downs = {}, {}
+        for n in walk_no_nested(g.node):
+            if isinstance(n, ast.AugAssign) and is_self_attr(n.target):
+                (ups if isinstance(n.op, ast.Add) else downs if isinstance(n.op, ast.Sub) else {}).setdefault(n.target.attr, []).append(n)
+        for attr in sorted(set(ups) & set(downs)):
+            c = CFG(g.node, may_raise=lambda n_: any(isinstance(x, (ast.Call, ast.Raise, ast.Subscript)) for x in ast.walk(n_)))
+            down_nodes = {c.node_of(d) for d in downs[attr]}
+            for u in ups[attr]:
+                un = c.node_of(u)
+                key = f"{g.qual} ▸ self.{attr} raised at `{short(u)}`"
+                path = c.escapes(start_edges=[(a_, b_, l_) for a_, b_, l_ in c.out_edges(un) if l_ != "exc"], through=down_nodes)
+                if path:
+                    led.fail("C12-R5", key, where(g, u),
+                             f"an exit is reachable without `self.{attr}` being lowered again (an exception between the two leaves it raised for the life of the object): later renderings behave as if nested",
+                             path=c.fmt_path(path), witness="a strict-mode error in one render, then any render whose values contain {{: the output keeps the escape marker")
+                else:
+                    led.ok("C12-R5", key, where(g, u), "every path to return and to raise passes the matching decrement")
+
     # ---------------- R3 no stale renderings: a memo of rendered text must be keyed on the whole binding dictionary
     render_fns = [tr] + pass_fns
     reach = {}
@@ -215,7 +267,7 @@ def run(p, led, tier):
                 reach[g.key] = g
     n_cache = 0
     for g in reach.values():
-        for n in walk_no_nested(g.node):
+        for n in ast.walk(g.node):          # nested regex callbacks included
             if isinstance(n, ast.Assign) and isinstance(n.targets[0], ast.Subscript) and is_self_attr(n.targets[0].value):
                 attr = n.targets[0].value.attr
                 if attr in ("templates", "filters"):
@@ -224,7 +276,7 @@ def run(p, led, tier):
                 keyexpr = n.targets[0].slice
                 kdef = keyexpr
                 if isinstance(keyexpr, ast.Name):
-                    defs = [a for a in walk_no_nested(g.node) if isinstance(a, ast.Assign) and isinstance(a.targets[0], ast.Name) and a.targets[0].id == keyexpr.id]
+                    defs = [a for a in ast.walk(g.node) if isinstance(a, ast.Assign) and isinstance(a.targets[0], ast.Name) and a.targets[0].id == keyexpr.id]
                     kdef = defs[-1].value if defs else keyexpr
                 whole = any(isinstance(x, ast.Call) and isinstance(x.func, ast.Attribute) and x.func.attr == "items" and isinstance(x.func.value, ast.Name) and x.func.value.id in _ctx_names()
                             for x in ast.walk(kdef)) or any(isinstance(x, ast.Call) and isinstance(x.func, ast.Name) and x.func.id in ("repr", "str", "frozenset", "tuple", "sorted")
@@ -354,8 +406,8 @@ def _escapers(rib, p=None):
         def rewrites(e):
             for c in ast.walk(e):
                 if isinstance(c, ast.Call) and isinstance(c.func, ast.Attribute) and c.func.attr == "replace" and c.args \
-                        and const_str(c.args[0]) == "{{" and len(c.args) > 1 \
-                        and not ("{{" in (const_str(c.args[1]) or "")):
+                        and const_str(c.args[0]) in ("{{", "{") and len(c.args) > 1 \
+                        and not ("{{" in (const_str(c.args[1]) or "")) and const_str(c.args[1]) != const_str(c.args[0]):
                     return True
             return False
         if all(rewrites(r.value) for r in rets):
@@ -365,11 +417,55 @@ def _escapers(rib, p=None):
     return out
 
 
+def _replace_literals(e):
+    """[(call, A, B)] for `<x>.replace(A, B)` calls inside expression e whose arguments are literal / named constants"""
+    out = []
+    for c in ast.walk(e):
+        if isinstance(c, ast.Call) and isinstance(c.func, ast.Attribute) and c.func.attr == "replace" and len(c.args) >= 2:
+            a, b = const_str(c.args[0]), const_str(c.args[1])
+            if a is not None and b is not None:
+                out.append((c, a, b))
+    return out
+
+
+def _escape_rules(rib, p, escapers):
+    """{escaper name: (function, node, A, B)} when the escaper is one literal replace A→B on every return"""
+    out = {}
+    cands = list(rib.methods.values()) + [f for fs in p.functions.values() for f in fs if f.module is rib.module and f.cls is None]
+    for m in cands:
+        if m.name not in escapers:
+            continue
+        rets = [n for n in walk_no_nested(m.node) if isinstance(n, ast.Return) and n.value is not None]
+        rules = [r for n in rets for r in _replace_literals(n.value)]
+        if rets and len(rules) == len(rets) and len({(a, b) for _, a, b in rules}) == 1:
+            out[m.name] = (m, rules[0][0], rules[0][1], rules[0][2])
+    return out
+
+
+def _unescape_rules(tr):
+    """[(node, A, B)] literal replace rules in translate() (or in the unescaping helper it calls) whose B is a brace text"""
+    out = []
+    rib = _CTX.get("rib")
+    fns = [tr.node]
+    for n in walk_no_nested(tr.node):
+        if isinstance(n, ast.Call) and _is_unescaper_call(n):
+            f = n.func
+            name = f.attr if isinstance(f, ast.Attribute) else f.id
+            g = rib.methods.get(name) if rib else None
+            if g is not None:
+                fns.append(g.node)
+    for fn in fns:
+        for c, a, b in _replace_literals(fn):
+            if b in ("{{", "{"):
+                out.append((c, a, b))
+    return out
+
+
 def _unescape_sites(tr, escapers):
     out = []
     for n in walk_no_nested(tr.node):
         if isinstance(n, ast.Call) and isinstance(n.func, ast.Attribute) and n.func.attr in ("replace",) and len(n.args) > 1 \
-                and const_str(n.args[1]) == "{{":
+                and const_str(n.args[1]) in ("{{", "{") and const_str(n.args[0]) not in ("{{", "{"):
             out.append(n)
         elif isinstance(n, ast.Call) and _is_unescaper_call(n):
             out.append(n)
@@ -389,7 +485,7 @@ def _is_unescaper_call(call):
     if g is None:
         return False
     rets = [r for r in walk_no_nested(g.node) if isinstance(r, ast.Return) and r.value is not None]
-    return bool(rets) and all(any(isinstance(c, ast.Call) and isinstance(c.func, ast.Attribute) and c.func.attr == "replace" and len(c.args) > 1 and const_str(c.args[1]) == "{{"
+    return bool(rets) and all(any(isinstance(c, ast.Call) and isinstance(c.func, ast.Attribute) and c.func.attr == "replace" and len(c.args) > 1 and const_str(c.args[1]) in ("{{", "{")
                                   for c in ast.walk(r.value)) for r in rets)
 
 
